@@ -274,6 +274,55 @@ def run(ctx):
         if c != 1:
             ctx.violate("R2", f"sdf writer: expected one {k} print statement with a static layout, found {c}", sdo, sdo.node, construct=f"sdf writer {k}")
 
+    # ---- sibling agreement: numeric slices of a reader against the module's own writer templates (WFN)
+    from ..layout import brace_segments
+
+    ntmpl = 0
+    for short in ("wfn",):
+        mod = prog.modules.get(f"iodata.formats.{short}")
+        if mod is None:
+            continue
+        templates = {}
+        for name, b in mod.bindings.items():
+            if b.kind != "assign" or not name.isupper():
+                continue
+            try:
+                val = ce.global_value(mod, name)
+            except NotConstant:
+                continue
+            if isinstance(val, str) and val.count("{") >= 2 and "}" in val:
+                segs = brace_segments(val, ast.Call(func=ast.Name(id="f", ctx=ast.Load()), args=[], keywords=[]))
+                ivs, _ = intervals(segs)
+                nums = [(a, b_) for a, b_, sg in ivs if sg.kind == "fmt" and sg.spec and sg.spec.get("type") in ("d", "f", "e", "E", "g")]
+                if len(nums) >= 2 and len({b_ - a for a, b_ in nums}) > 1:
+                    templates[name] = nums
+        for f in mod.funcs:
+            if f.name.startswith("dump") or f.name.startswith("_dump"):
+                continue
+            pmf = prog.parents(f)
+            byvar = {}
+            for n in f.own_nodes():
+                if isinstance(n, ast.Subscript) and isinstance(n.value, ast.Name) and isinstance(n.slice, ast.Slice):
+                    par = pmf.get(id(n))
+                    # numeric conversion directly applied: int(line[a:b]) / float(line[a:b])
+                    if isinstance(par, ast.Call) and getattr(par.func, "id", "") in ("int", "float") and isinstance(n.slice.lower, ast.Constant) and isinstance(n.slice.upper, ast.Constant):
+                        byvar.setdefault(n.value.id, []).append((n.slice.lower.value, n.slice.upper.value, n))
+            for var, sl in byvar.items():
+                if len(sl) < 2:
+                    continue
+                best = max(templates.items(), key=lambda kv: sum(1 for a, b_, _ in sl if (a, b_) in kv[1]), default=None)
+                if best is None:
+                    continue
+                tname, nums = best
+                ntmpl += 1
+                for a, b_, node in sl:
+                    if (a, b_) in nums:
+                        ctx.ok("R2", f"{short}: `{src_of(node)}` equals a numeric field of the writer template {tname}", f"{f.module.relpath}:{node.lineno}", sample=(a == sl[0][0]))
+                    else:
+                        near = min(nums, key=lambda ab: abs(ab[0] - a) + abs(ab[1] - b_))
+                        ctx.violate("R2", f"{short}: the reader cuts `{src_of(node)}` = [{a}:{b_}] but the module's own writer template {tname} puts the nearest number in [{near[0]}:{near[1]}]: a field that fills its columns is mis-read", f, node)
+    ctx.floor("R2", ntmpl, 4, "WFN reader records matched against writer templates")
+
     # ------------------------------------------------------------------ R3
     ctx.rule("R3", "four-index integrals are stored in physicists' notation", "two-electron integrals land on transposed index positions")
     s4 = prog.func("iodata.utils.set_four_index_element")
